@@ -30,6 +30,7 @@ structure ReadRec where
   deriving Repr, BEq, Inhabited
 
 structure Death where
+  id : Nat                 -- identity of the registration (the Python ring-buffer object)
   pat : Pat
   exc : Nat
   ring : Bytes
@@ -46,6 +47,7 @@ structure St where
   slice : Nat := Params.sendSliceSize
   prompt : Option Pat := none
   deaths : List Death := []
+  nextDeath : Nat := 0
   streams : List Nat := []
   streambuf : Bytes := []
   logPrompt : Bool := true
@@ -159,47 +161,48 @@ def windowSize (ds : List Death) : Nat :=
   | [] => 1
   | m :: ms => max 1 ((ms.foldl min m) / 2)
 
-/-- process one window: extend every ring in order, stop at the first match -/
-def checkWindow (w : Bytes) : List Death → Option (Nat × Bytes) × List Death
-  | [] => (none, [])
-  | d :: ds =>
+/-- process one window: every ring is extended; the first match (in list order) found while
+    nothing is pending yet is remembered -/
+def checkWindow (w : Bytes) : Option (Nat × Bytes) → List Death → Option (Nat × Bytes) × List Death
+  | pend, [] => (pend, [])
+  | pend, d :: ds =>
     let ring := ringPush d.maxlen d.ring w
     let d' := { d with ring := ring }
-    match d.pat.search ring with
-    | some (a, b) => (some (d.exc, (ring.drop a).take (b - a)), d' :: ds)
-    | none =>
-      let (r, ds') := checkWindow w ds
-      (r, d' :: ds')
+    let pend' := match pend with
+      | some x => some x
+      | none =>
+        match d.pat.search ring with
+        | some (a, b) => some (d.exc, (ring.drop a).take (b - a))
+        | none => none
+    let (r, ds') := checkWindow w pend' ds
+    (r, d' :: ds')
 
-def checkWindows (wsz : Nat) : Nat → Bytes → List Death → Option (Nat × Bytes) × List Death
-  | 0, _, ds => (none, ds)
-  | _ + 1, [], ds => (none, ds)
-  | f + 1, b :: t, ds =>
-    let (r, ds') := checkWindow ((b :: t).take wsz) ds
-    match r with
-    | some x => (some x, ds')
-    | none => checkWindows wsz f ((b :: t).drop wsz) ds'
+def checkWindows (wsz : Nat) :
+    Nat → Bytes → Option (Nat × Bytes) → List Death → Option (Nat × Bytes) × List Death
+  | 0, _, pend, ds => (pend, ds)
+  | _ + 1, [], pend, ds => (pend, ds)
+  | f + 1, b :: t, pend, ds =>
+    let (pend', ds') := checkWindow ((b :: t).take wsz) pend ds
+    checkWindows wsz f ((b :: t).drop wsz) pend' ds'
 
-/-- `Channel._check` -/
+/-- `Channel._check`: all of `incoming` passes through every ring buffer; the first match
+    found is raised afterwards -/
 def check (incoming : Bytes) (s : St) : Res Unit :=
   if s.deaths.isEmpty then (.ok (), s) else
-  let (r, ds) := checkWindows (windowSize s.deaths) incoming.length incoming s.deaths
+  let (r, ds) := checkWindows (windowSize s.deaths) incoming.length incoming none s.deaths
   let s := { s with deaths := ds }
   match r with
   | some (e, m) => (.error (.death e m), s)
   | none => (.ok (), s)
 
-def deathEnter (pat : Pat) (exc : Nat) (s : St) : St :=
-  { s with deaths := { pat := pat, exc := exc, ring := [] } :: s.deaths }
+/-- `with_death_string` entry / `add_death_string`; returns the registration's identity -/
+def deathEnter (pat : Pat) (exc : Nat) (s : St) : Nat × St :=
+  (s.nextDeath, { s with deaths := { id := s.nextDeath, pat := pat, exc := exc, ring := [] } :: s.deaths,
+                         nextDeath := s.nextDeath + 1 })
 
-/-- `with_death_string` exit: `list.remove` of the tuple (first element comparing equal) -/
-def deathExit (pat : Pat) (exc : Nat) (s : St) : St :=
-  -- the registration's ring object is identified by (pat, exc); rings of equal content
-  -- compare equal in Python as well, so the first (pat, exc, ring-equal) entry goes.
-  let rec go : List Death → List Death
-    | [] => []
-    | d :: ds => if d.pat == pat && d.exc == exc then ds else d :: go ds
-  { s with deaths := go s.deaths }
+/-- `with_death_string` exit: removes its own registration -/
+def deathExit (id : Nat) (s : St) : St :=
+  { s with deaths := s.deaths.filter (·.id != id) }
 
 /-! ### read_iter -/
 
